@@ -9,6 +9,15 @@ FAMS = {"A": ["T1", "T2", "T3"], "B": ["D1", "D2", "D3", "T1"], "C": ["M1", "M2"
 
 
 def run(ctx, args):
+    _run_locks(ctx, args)
+    if ctx.pid == "C03" and ctx.tier == "thorough":
+        # system level: in a real multi-node network no signer answers for two different transactions that
+        # spend the same slot (condition [R5] of spec/Net/Cosi.tla), judged on a recorded run
+        import cosinet
+        cosinet.run_cosinet(ctx, with_model=False)
+
+
+def _run_locks(ctx, args):
     quick = ctx.tier == "quick"
     rng = random.Random(ctx.seed)
     d = ctx.specdir("Locks")
